@@ -11,6 +11,8 @@
 package c33
 
 import (
+	"crypto/sha256"
+	"encoding/hex"
 	"fmt"
 	"sort"
 	"strings"
@@ -20,6 +22,7 @@ import (
 	sdkmath "cosmossdk.io/math"
 
 	sdk "github.com/cosmos/cosmos-sdk/types"
+	banktypes "github.com/cosmos/cosmos-sdk/x/bank/types"
 	minttypes "github.com/cosmos/cosmos-sdk/x/mint/types"
 
 	abci "github.com/cometbft/cometbft/abci/types"
@@ -217,12 +220,15 @@ type outcome struct {
 	World   string `json:"world"`
 	Route   string `json:"route"`
 	Base    string `json:"base"`
+	PreMeta bool   `json:"voucher_metadata_preregistered_on_B"`
+	Code    string `json:"error_code,omitempty"`
 	Trivial string `json:"trivial,omitempty"` // why the base is outside the quantifier
 	Voucher string `json:"voucher_on_B,omitempty"`
 	Path    string `json:"voucher_path_on_B,omitempty"`
 	Leg     string `json:"failing_leg,omitempty"`
 	Err     string `json:"error,omitempty"`
 	Broken  string `json:"-"`
+	metaHit bool   // the pre-registered metadata was for exactly the voucher that got credited
 }
 
 func resText(r ksim.Result) string {
@@ -304,8 +310,18 @@ func (f *fixture) ack(w *ksim.World, rt route, src int, s sent, app []byte, v2ac
 	return w.AckV1(src, dst, s.v1, app, ph)
 }
 
-func (f *fixture) roundTrip(rt route, base string) outcome {
-	o := outcome{World: f.name, Route: rt.Name, Base: base}
+// refVoucher is the specification formula for the voucher the destination credits, written independently
+// of the implementation: "ibc/" + upper-case hex SHA-256 of "<port>/<destination channel>/<base>".
+func refVoucher(id, base string) string {
+	h := sha256.Sum256([]byte(transfertypes.PortID + "/" + id + "/" + base))
+	return "ibc/" + strings.ToUpper(hex.EncodeToString(h[:]))
+}
+
+// roundTrip runs one case. With premeta the destination chain B already has bank denomination metadata for
+// the voucher it is going to credit (as a chain registers display metadata for an expected IBC asset through
+// genesis, an upgrade or governance) before the first packet of that denomination arrives.
+func (f *fixture) roundTrip(rt route, base string, premeta bool) outcome {
+	o := outcome{World: f.name, Route: rt.Name, Base: base, PreMeta: premeta}
 	w := f.base.Fork()
 	if err := sdk.ValidateDenom(base); err != nil {
 		// no account can hold such a coin: outside the quantifier. For the record, what the origin's
@@ -348,10 +364,19 @@ func (f *fixture) roundTrip(rt route, base string) outcome {
 		o.Broken = fmt.Sprintf("origin accepted the send of %s but moved %s instead of escrowing the coin", base, movesText(got))
 		return o
 	}
+	if premeta {
+		v := refVoucher(rt.IDB, base)
+		md := banktypes.Metadata{Description: "pre-registered IBC asset", Base: v, Display: v, Name: v, Symbol: "PRE",
+			DenomUnits: []*banktypes.DenomUnit{{Denom: v, Exponent: 0}}}
+		if r := w.Do(1, func(ctx sdk.Context) error { appB.BankKeeper.SetDenomMetaData(ctx, md); return nil }); r.Class != ksim.OK {
+			o.Broken = "cannot pre-register bank metadata on B: " + resText(r)
+			return o
+		}
+	}
 	preB := w.Fork()
 	rr := f.recv(w, rt, 1, p1)
 	if rr.Class != ksim.OK {
-		o.Leg, o.Err = "forward-recv-tx-"+string(rr.Class), resText(rr)
+		o.Leg, o.Err, o.Code = "forward-recv-tx-"+string(rr.Class), resText(rr), rr.Code
 		return o
 	}
 	app1, v2ack1, ok1, err := ackOf(rt.V2, rr.Events)
@@ -375,6 +400,7 @@ func (f *fixture) roundTrip(rt route, base string) outcome {
 		return o
 	}
 	o.Voucher = credited[0].Denom
+	o.metaHit = premeta && o.Voucher == refVoucher(rt.IDB, base)
 	o.Path = o.Voucher
 	if strings.HasPrefix(o.Voucher, "ibc/") {
 		d, err := appB.TransferKeeper.GetDenomFromIBCDenom(w.CS[1].Ctx, o.Voucher)
@@ -388,7 +414,7 @@ func (f *fixture) roundTrip(rt route, base string) outcome {
 	// ---- leg 2: B -> A, the voucher the receiver holds ----
 	p2, r2 := f.send(w, rt, 1, o.Voucher, o.Path, f.userB, f.userA)
 	if r2.Class != ksim.OK {
-		o.Leg, o.Err = "return-send", resText(r2)
+		o.Leg, o.Err, o.Code = "return-send", resText(r2), r2.Code
 		return o
 	}
 	r3 := f.recv(w, rt, 0, p2) // commits B (leg-1 ack and leg-2 commitment become provable) and updates A's client
@@ -397,7 +423,7 @@ func (f *fixture) roundTrip(rt route, base string) outcome {
 		return o
 	}
 	if r3.Class != ksim.OK {
-		o.Leg, o.Err = "return-recv-tx-"+string(r3.Class), resText(r3)
+		o.Leg, o.Err, o.Code = "return-recv-tx-"+string(r3.Class), resText(r3), r3.Code
 		return o
 	}
 	app2, v2ack2, ok2, err := ackOf(rt.V2, r3.Events)
@@ -452,7 +478,10 @@ func shape(base string) string {
 	return strings.Join(out, "/")
 }
 
-func (f *fixture) report(c *core.C, o outcome) {
+// report files a failed round trip. ref is the outcome of the same case without pre-registered metadata:
+// a failure that is the same with and without it is one finding (same key); a failure that only the
+// configuration produces (or changes) gets the configuration in its key.
+func (f *fixture) report(c *core.C, o outcome, ref *outcome) {
 	if o.Leg == "" {
 		return
 	}
@@ -465,7 +494,17 @@ func (f *fixture) report(c *core.C, o outcome) {
 		fam = "no-forward"
 	}
 	key := fmt.Sprintf("%s/%s/%s/base~%s", fam, o.Route, o.Leg, shape(o.Base))
-	text := fmt.Sprintf("base denomination %q was accepted by the origin chain A (%s, world %s: channel %s on A / %s on B) but the round trip failed at leg %s: %s", o.Base, o.Route, f.name, f.ch.ChanA, f.ch.ChanB, o.Leg, o.Err)
+	cfg := ""
+	if o.PreMeta {
+		cfg = ", bank metadata for the voucher pre-registered on B"
+		if ref == nil || ref.Leg != o.Leg || ref.Code != o.Code {
+			key += "@voucher-metadata-preregistered"
+			if o.Code != "" {
+				key += ":" + o.Code
+			}
+		}
+	}
+	text := fmt.Sprintf("base denomination %q was accepted by the origin chain A (%s, world %s: channel %s on A / %s on B%s) but the round trip failed at leg %s: %s", o.Base, o.Route, f.name, f.ch.ChanA, f.ch.ChanB, cfg, o.Leg, o.Err)
 	if o.Voucher != "" {
 		text += fmt.Sprintf(" (B credited %s = %q)", o.Voucher, o.Path)
 	}
@@ -519,9 +558,13 @@ func run(c *core.C) {
 		for _, f := range worlds {
 			for _, rt := range f.routes {
 				if rt.Name == o.Route && f.name == o.World {
-					res := f.roundTrip(rt, o.Base)
-					fmt.Printf("replay %s/%s base=%q: trivial=%q leg=%q err=%q\n", f.name, rt.Name, o.Base, res.Trivial, res.Leg, res.Err)
-					f.report(c, res)
+					ref := f.roundTrip(rt, o.Base, false)
+					res := ref
+					if o.PreMeta {
+						res = f.roundTrip(rt, o.Base, true)
+					}
+					fmt.Printf("replay %s/%s base=%q premeta=%v: trivial=%q leg=%q err=%q\n", f.name, rt.Name, o.Base, o.PreMeta, res.Trivial, res.Leg, res.Err)
+					f.report(c, res, &ref)
 					c.Sample(res)
 				}
 			}
@@ -532,7 +575,7 @@ func run(c *core.C) {
 		return
 	}
 	all := bases(c)
-	evals, nontrivial, held := 0, 0, 0
+	evals, nontrivial, held, metaHits := 0, 0, 0, 0
 	seen := map[string]bool{}
 	exhaustive := true
 loop:
@@ -548,44 +591,62 @@ loop:
 					continue
 				}
 				seen[name+"|"+b] = true
-				evals++
-				o := f.roundTrip(rt, b)
-				if o.Broken != "" {
-					c.Broken("%s base %q: %s", name, b, o.Broken)
-					return
-				}
-				if o.Trivial != "" {
-					c.Hist("outside_quantifier", name+":"+o.Trivial)
-					if o.Err != "" {
-						c.Hist("origin_handler_panics_on_non_sdk_denoms(info)", name+": "+o.Err)
+				var ref outcome
+				for _, premeta := range []bool{false, true} {
+					evals++
+					o := f.roundTrip(rt, b, premeta)
+					if !premeta {
+						ref = o
 					}
-					continue
-				}
-				nontrivial++
-				c.Hist("accepted_by_segments", fmt.Sprintf("%s:%d", name, strings.Count(b, "/")+1))
-				if o.Leg == "" {
-					held++
-					c.Hist("round_trips_completed", name)
-					if held%11 == 1 {
-						c.Sample(o)
+					if o.Broken != "" {
+						c.Broken("%s base %q: %s", name, b, o.Broken)
+						return
 					}
-				} else {
-					c.Hist("round_trips_failed", name+":"+o.Leg)
-					c.Hist("failed_shapes", name+":"+o.Leg+":"+shape(b))
-					f.report(c, o)
+					if o.Trivial != "" {
+						c.Hist("outside_quantifier", name+":"+o.Trivial)
+						if o.Err != "" {
+							c.Hist("origin_handler_panics_on_non_sdk_denoms(info)", name+": "+o.Err)
+						}
+						break // the destination's configuration cannot matter for a send the origin refuses
+					}
+					cname := name
+					if premeta {
+						cname += "+premeta"
+					}
+					nontrivial++
+					if o.metaHit {
+						metaHits++
+					}
+					c.Hist("accepted_by_segments", fmt.Sprintf("%s:%d", cname, strings.Count(b, "/")+1))
+					if o.Leg == "" {
+						held++
+						c.Hist("round_trips_completed", cname)
+						if held%23 == 1 {
+							c.Sample(o)
+						}
+					} else {
+						c.Hist("round_trips_failed", cname+":"+o.Leg)
+						c.Hist("failed_shapes", cname+":"+o.Leg+":"+shape(b))
+						f.report(c, o, &ref)
+					}
 				}
 			}
 		}
 	}
+	if exhaustive && metaHits == 0 {
+		c.Broken("the pre-registered metadata never matched a credited voucher: the configuration dimension is ineffective")
+	}
+	c.Set("premeta_cases_where_the_credited_voucher_had_preregistered_metadata", metaHits)
 	c.Set("evaluations", evals)
 	c.Set("distinct_nontrivial", nontrivial)
 	c.Set("round_trips_held", held)
 	c.Set("bases", len(all))
 	c.Set("worlds", "sym: transfer channel is channel-0 on both chains; asym: channel-0 on A, channel-1 on B")
 	c.Set("exhaustive", exhaustive)
-	c.Set("rule", "every '/'-joined string of 1..2 (quick; plus a fixed list of 3-segment strings) or 1..3 (thorough) segments over {uatom, transfer, channel-0, channel-7, 07-tendermint-0, ibc, x} as a base denomination x route in {v1 MsgTransfer over the channel, v2 MsgSendPacket over the channel's alias, v2 MsgSendPacket over 07-tendermint-0} x world in {sym, asym}; a case is non-trivial (inside the quantifier) when the string is an SDK denomination AND the origin chain's real handler accepts the first send; evaluations = (world, route, base) cases, distinct_nontrivial = distinct cases whose round trip was executed")
+	c.Set("rule", "every '/'-joined string of 1..2 (quick; plus a fixed list of 3-segment strings) or 1..3 (thorough) segments over {uatom, transfer, channel-0, channel-7, 07-tendermint-0, ibc, x} as a base denomination x route in {v1 MsgTransfer over the channel, v2 MsgSendPacket over the channel's alias, v2 MsgSendPacket over 07-tendermint-0} x world in {sym, asym} x destination configuration in {no bank metadata for the voucher, bank metadata for the voucher (ibc/ + SHA-256 of the full path, computed independently) registered on B before the first receive}; a case is non-trivial (inside the quantifier) when the string is an SDK denomination AND the origin chain's real handler accepts the first send; evaluations = (world, route, base, configuration) cases, distinct_nontrivial = distinct cases whose round trip was executed")
 	c.Assume("origin acceptance = sdk.ValidateDenom (needed to mint the coin) + MsgTransfer.ValidateBasic + the Transfer handler (v1), or MsgSendPacket.ValidateBasic + the transfer application's OnSendPacket (v2), all on chain A")
 	c.Assume("the return leg sends the denomination the receiver was credited with on B as read from B's bank store; for v2 the payload path is the one B's transfer keeper records for that voucher")
 	c.Assume("an honest relayer: each packet and acknowledgement relayed once with a fresh proof; 5 units, receiver of the return leg = the original sender")
+	c.Assume("a failure that is identical (leg and error code) with and without pre-registered voucher metadata is one finding; a failure that only occurs, or changes, with the metadata carries @voucher-metadata-preregistered in its key")
 	c.Assume("violation keys abstract the base denomination to its shape (first segment transfer|P, identifier-like inner segments literally, last segment B) and do not name the world: a shape failing at the same leg in both worlds is one finding")
 }
